@@ -158,6 +158,99 @@ def circuit_case(ctx, out, comps, w, tseed):
         if not core.close(b[4], sg * a[4], scale, 1e-8): return fail('dc_current', id=k, a=str(a[4]), b=str(b[4]))
     out.traces_validated += 1
 
+def transform_state(rng, desc):
+    """bijective renaming of nodes and ids from the adversarial pools, permutation of the listing
+    order (ground position too), reversed subset of the passive elements"""
+    import gen_state
+    labels = gen_state.labels_of(desc)
+    cand = [l for l in dict.fromkeys(list(rng.choice(gen_net.LABEL_POOLS)) + [f'{x}{y}' for x in 'qQ9_' for y in 'aZ0~'])]
+    rng.shuffle(cand)
+    sigma = dict(zip(labels, cand[:len(labels)]))
+    pool = list(gen_state.ADV_POOL) + [f'{a}{b}' for a in 'AMZamz' for b in '019']
+    rng.shuffle(pool)
+    order = list(range(len(desc['comps']))); rng.shuffle(order)
+    tau = {}; flips = set(); comps = []
+    for pos, k in enumerate(order):
+        c = desc['comps'][k]
+        tau[c['id']] = pool[pos]
+        n1, n2 = sigma[c['n1']], sigma[c['n2']]
+        if c['kind'] in ('R', 'C', 'L') and rng.random() < 0.4:
+            n1, n2 = n2, n1; flips.add(c['id'])
+        comps.append(dict(kind=c['kind'], id=pool[pos], n1=n1, n2=n2, val=c['val']))
+    return dict(ground=sigma[desc['ground']], comps=comps, ground_pos=rng.randint(0, len(comps))), sigma, tau, flips
+
+def state_case(ctx, out, desc, tseed):
+    """state-space transfer behaviour and transient waveforms are invariant (C10 / C12 domain)"""
+    import gen_state
+    from CircuitCalculator.Circuit.solution import TransientSolution
+    out.evaluations += 1
+    drv = ctx.driver
+    if drv is None: return
+    ok, why = gen_state.nondegenerate(drv, desc)
+    if not ok:
+        out.count('state_degenerate:' + why); return
+    desc2, sigma, tau, flips = transform_state(core.Rng(tseed, 'state'), desc)
+    canon = dict(level='statespace', kinds=sorted({c['kind'] for c in desc['comps']}))
+    ids = [c['id'] for c in desc['comps']]
+    def transfer(im, labels, idlist, w):
+        ssm = im.ssm
+        A = np.asarray(ssm.A, dtype=complex); B = np.asarray(ssm.B, dtype=complex)
+        X = np.linalg.solve(1j * w * np.eye(A.shape[0]) - A, B) if A.shape[0] else np.zeros((0, B.shape[1]), dtype=complex)
+        rows = {}
+        for n in labels:
+            rows[('pot', n)] = np.asarray(ssm.c_row_for_potential(n), dtype=complex).reshape(1, -1) @ X + np.asarray(ssm.d_row_for_potential(n), dtype=complex).reshape(1, -1)
+        for i in idlist:
+            rows[('v', i)] = np.asarray(ssm.c_row_voltage(i), dtype=complex).reshape(1, -1) @ X + np.asarray(ssm.d_row_voltage(i), dtype=complex).reshape(1, -1)
+            rows[('i', i)] = np.asarray(ssm.c_row_current(i), dtype=complex).reshape(1, -1) @ X + np.asarray(ssm.d_row_current(i), dtype=complex).reshape(1, -1)
+        return {k: v.reshape(-1) for k, v in rows.items()}, list(ssm.sources)
+    try:
+        im1 = gen_state.impl_model(desc)
+    except Exception as e:
+        out.count('state_unbuildable:' + tag(e)); return
+    try:
+        im2 = gen_state.impl_model(desc2)
+    except Exception as e:
+        out.spec_fail(dict(canon, symptom='raises', exc=tag(e)), 'renamed / permuted circuit has no state-space model', gen_state.pretty(desc),
+                      impl=dict(transformed=gen_state.pretty(desc2)), sdesc=desc, tseed=tseed); return
+    out.nontrivial(('state', gen_state.shape(desc), bool(flips)))
+    labels = gen_state.labels_of(desc)
+    for w in (0.0, 0.5, 2.0):
+        try:
+            t1, src1 = transfer(im1, labels, ids, w)
+            t2, src2 = transfer(im2, [sigma[n] for n in labels], [tau[i] for i in ids], w)
+        except Exception as e:
+            out.count('state_transfer_error:' + tag(e)); return
+        if sorted(tau[x] for x in src1) != sorted(src2):
+            out.spec_fail(dict(canon, symptom='sources_changed'), 'published source list changed under renaming', gen_state.pretty(desc),
+                          impl=dict(a=src1, b=src2), sdesc=desc, tseed=tseed); return
+        col = {s: src2.index(tau[s]) for s in src1}
+        scale = max([1.0] + [abs(x) for v in t1.values() for x in v])
+        for (kind, key), row in t1.items():
+            key2 = sigma[key] if kind == 'pot' else tau[key]
+            sg = -1 if (kind != 'pot' and key in flips) else 1
+            for k, s_ in enumerate(src1):
+                if not core.close(t2[(kind, key2)][col[s_]], sg * row[k], scale, 1e-7):
+                    out.spec_fail(dict(canon, symptom='transfer_changed', output=kind), f'transfer from {s_!r} to {kind} {key!r} changed under renaming / permutation / reversal (w={w})',
+                                  gen_state.pretty(desc), impl=dict(transformed=gen_state.pretty(desc2), a=str(sg * row[k]), b=str(t2[(kind, key2)][col[s_]])),
+                                  sdesc=desc, tseed=tseed)
+                    return
+    # transient waveforms
+    try:
+        tin = np.linspace(0.0, 2.0, 41)
+        srcs = [c['id'] for c in desc['comps'] if c['kind'] in ('V', 'I')]
+        wave = {s: (lambda t, k=k: (1.0 + 0.5 * k) * np.minimum(t, 1.0)) for k, s in enumerate(srcs)}
+        ts1 = TransientSolution(im1.circuit, tin=tin, input=wave)
+        ts2 = TransientSolution(im2.circuit, tin=tin, input={tau[s]: f for s, f in wave.items()})
+        for n in labels:
+            a = np.asarray(ts1.get_potential(n)[1], dtype=float); b = np.asarray(ts2.get_potential(sigma[n])[1], dtype=float)
+            if not np.allclose(a, b, rtol=1e-6, atol=1e-8 * max(1.0, np.max(np.abs(a)))):
+                out.spec_fail(dict(canon, symptom='transient_changed'), f'transient potential of {n!r} changed under renaming / permutation / reversal',
+                              gen_state.pretty(desc), impl=dict(transformed=gen_state.pretty(desc2)), sdesc=desc, tseed=tseed)
+                return
+    except Exception as e:
+        out.count('state_transient_error:' + tag(e))
+    out.traces_validated += 1
+
 def run(ctx, out):
     out.rule = ('random well-posed networks (C01 domain) and RLC circuits (C02 domain) × one random transformation each '
                 '(bijective renaming from adversarial pools ∘ permutation ∘ reversed subset ∘ new reference); distinct by '
@@ -168,9 +261,14 @@ def run(ctx, out):
         if ctx.time_left() < 20: break
         network_case(ctx, out, gen_net.random_desc(rng, exact=rng.random() < 0.6, n_nodes=rng.randint(2, 7)), rng.randrange(1 << 30))
     for k in range(n2):
-        if ctx.time_left() < 10: break
+        if ctx.time_left() < 30: break
         circuit_case(ctx, out, gen_circ.random_circuit(rng), rng.choice([0.0, 1.0, 2.0]), rng.randrange(1 << 30))
+    import gen_state
+    for k in range(160 if ctx.quick else 3000):
+        if ctx.time_left() < 10: break
+        state_case(ctx, out, gen_state.random_desc(rng, safe=False), rng.randrange(1 << 30))
 
 def replay(ctx, out, rp):
-    if 'desc' in rp: network_case(ctx, out, rp['desc'], rp['tseed'])
+    if 'sdesc' in rp: state_case(ctx, out, rp['sdesc'], rp['tseed'])
+    elif 'desc' in rp: network_case(ctx, out, rp['desc'], rp['tseed'])
     else: circuit_case(ctx, out, rp['comps'], rp['w'], rp['tseed'])
